@@ -103,6 +103,13 @@ class Model {
   mutable std::map<std::string, uint64_t> finding_hits; // how often each listed finding was observed in this run
   std::vector<Choice> open_choices;                     // to be resolved by the harness right after the event
   std::set<std::string> activatable;                    // names with a service file (C19)
+  // configuration reload (C14's "parsing ... a configuration file"): what ReloadConfig switches to, if the
+  // harness has put a different file in place; cfg_gen tells the harness' policy hooks which rule set is in force
+  bool has_next_cfg = false;
+  Limits lim_next;
+  std::set<std::string> activatable_next;
+  int cfg_gen = 0;
+  bool cfg_unspecified = false;       // between a half-done reload (listed finding) and its retry
   // C19: a pending activation: who waits, in arrival order
   struct Waiter { int c; wire::Msg m; bool start_call; /* StartServiceByName (answered by the bus) vs a held message (delivered to the service) */ };
   struct Activation { std::vector<Waiter> waiters; int64_t started_us = 0; };
